@@ -36,6 +36,19 @@ def main(tier):
     results = common.run_specs(sp, ["C14", "TSRV", "TCLI"])
     common.judge(chk, results, "TraceMonAnswers", "TraceMonAnswers.cfg", "answers", key="C14")
     common.bind_tunnel(chk, results)
+    # the scripted peers' histories (TLC-generated from Session.tla: every command with every argument, also refused and
+    # malformed ones, from owners and strangers) under the same monitor: no request gets two answers either
+    from checks import sessions
+    hs = sessions.specs(tier, seed + 14, chk)
+    if tier == "quick":
+        hs = hs[:120] + hs[-40:]
+    for h in hs:
+        h["c14"] = True
+        h["label"] = "s" + h["label"]
+    hres = sessions.run(hs)
+    common.judge(chk, hres, "TraceMonAnswers", "TraceMonAnswers.cfg", "answers:scripted", key="C14")
+    chk.cov["scripted_histories"] = len(hres)
+    chk.cov["scripted_answers_judged"] = sum(r["stats"].get("answers", 0) for r in hres)
     chk.cov["evaluations"] = sum(r["stats"].get("answers", 0) for r in results)
     chk.cov["runs"] = len(results)
     chk.cov["queries_received"] = sum(r["stats"].get("queries", 0) for r in results)
